@@ -524,6 +524,23 @@ def run(ctx):
 
 
     # ---- R10.13
+    # ---- R10.14: when the second value of a printed range may be left out
+    ctx.rule("R10.14", "SECOND-VALUE: rtosc_print_range, evaluated up to its ` ... ` on symbolic runs of every numeric type, leaves the second value out exactly when the step is +1 or -1 in the run's own type (a 64-bit step of 2^32+1, a float step of 1.5 are not) and no differing value of that type stands in front of the run - the readers assume a unit step otherwise")
+    from ..rules import rangeprint as RP
+    by_type = {}
+    for cs in RP.cases():
+        try:
+            got14 = RP.second_printed(u, *cs)
+        except FD.Unknown as e:
+            raise AnalysisBroken("R10.14: rtosc_print_range not evaluable on %r: %s" % (cs, e))
+        want14 = RP.expected(*cs)
+        by_type.setdefault(cs[0], []).append((cs, got14, want14))
+    for typ14, rows in sorted(by_type.items()):
+        bad14 = [{"step": c[2], "value_in_front": list(c[4]) if c[4] else None, "second_value_printed": g, "needed": w} for c, g, w in rows if g != w]
+        ctx.ob("R10.14", "runs of type '%s'" % typ14, not bad14, site=A.where(u.function("rtosc_print_range")), detail={"cases": len(rows), "mismatches": bad14[:5]},
+               key="R10.14:%s" % typ14,
+               what="rtosc_print_range on runs of type '%s': %s" % (typ14, bad14[:3]))
+
     ctx.rule("R10.13", "RANGE-AS-READ: before the printer replaces a run by `a b ... c` it has the count confirmed by the function with which scanner and checker recover it from a, b and c (delta_from_arg_vals) - the emission of a range with a step is dominated by that comparison - since the stepwise test of the printer and the division of the readers differ for spans that overflow the value type")
     fconv = u.function("rtosc_convert_to_range")
     ins = [c for c in A.calls_in(u.body(fconv)) if A.callee_name(c) == "insert_arg_range"]
@@ -531,6 +548,7 @@ def run(ctx):
     confirm = [c for c in A.calls_in(u.body(fconv)) if A.callee_name(c) == "delta_from_arg_vals"]
     ok13 = False
     det13 = {"calls_of_delta_from_arg_vals": len(confirm)}
+    modes13 = set()
     for c in confirm:
         # the call sits in a condition whose failing side leaves the function, in a statement before the emission
         for p_ in u.ancestors(c):
@@ -541,11 +559,17 @@ def run(ctx):
                 before = A.loc(p_)[1] is not None and A.loc(ins[0])[1] is not None and A.loc(p_)[1] < A.loc(ins[0])[1]
                 if leaves and cmp_ and before:
                     ok13 = True
+                    mu = A.int_literal(A.kids(c)[-1])
+                    modes13 |= {"with the second value", "second value left out (unit step)"} if mu is None else ({"second value left out (unit step)"} if mu else {"with the second value"})
                 det13["guard"] = A.src(A.kids(p_)[0])[:160]
                 break
     ctx.ob("R10.13", "rtosc_convert_to_range", ok13, site=A.where(ins[0]), detail=det13,
            key="R10.13:rtosc_convert_to_range",
            what="the printer compresses an arithmetic run without asking the readers' step computation: for a run whose span overflows the value type (int32: -2000000000 -1000000000 0 1000000000 2000000000) the printed range is rejected by the checker")
+
+    ctx.ob("R10.13", "rtosc_convert_to_range: both spellings", len(modes13) == 2, site=A.where(ins[0]), detail={"confirmed_reading_modes": sorted(modes13)},
+           key="R10.13:rtosc_convert_to_range:modes",
+           what="the printer has the count of a run confirmed only for %s; a run with step +-1 is printed without its second value and read back by taking the direction from first and last - a run that wraps around the end of its type (2147483646 2147483647 -2147483648 ...) reads back as something else" % sorted(modes13))
 
 def _inside10(root, node):
     nid = node.get("id")
